@@ -97,6 +97,10 @@ theorem ex2_connected : Connected ex2 := by
   · exact h1
   · exact hcl 1 0 2 (by decide) (by decide) (by decide) h1 (by decide)
 
+theorem ex2_idMor : IsMor ex2 ex2 (fun d => d) :=
+  ⟨fun _ _ _ => by simp [degreesMatch2],
+   fun d _ _ i _ di ei h1 h2 => by rw [h1] at h2; cases h2; rfl⟩
+
 /-- a table given by rows, 0 = undefined -/
 def tab (rows : List (List Nat)) (i d : Nat) : Option Nat :=
   match rows[i]? with
